@@ -42,11 +42,35 @@ type fullStack struct {
 	g   *gossip.VerifNode
 }
 
-func newFullStack() *fullStack {
+// slowWatcher delays every notification a little before handing it to the
+// real syncer: a schedule perturbation that widens any window between a state
+// change and its notification (there is none while notifications are made under
+// the gossip state lock, as the Watcher contract says).
+type slowWatcher struct {
+	next  gossip.Watcher
+	delay time.Duration
+}
+
+func (w *slowWatcher) pause()                      { runtime.Gosched(); time.Sleep(w.delay) }
+func (w *slowWatcher) OnJoin(id string)            { w.pause(); w.next.OnJoin(id) }
+func (w *slowWatcher) OnLeave(id string)           { w.pause(); w.next.OnLeave(id) }
+func (w *slowWatcher) OnReachable(id string)       { w.pause(); w.next.OnReachable(id) }
+func (w *slowWatcher) OnUnreachable(id string)     { w.pause(); w.next.OnUnreachable(id) }
+func (w *slowWatcher) OnExpired(id string)         { w.pause(); w.next.OnExpired(id) }
+func (w *slowWatcher) OnUpsertKey(id, k, v string) { w.next.OnUpsertKey(id, k, v) }
+func (w *slowWatcher) OnDeleteKey(id, k string)    { w.next.OnDeleteKey(id, k) }
+
+func newFullStack() *fullStack { return newFullStackDelay(0) }
+
+func newFullStackDelay(delay time.Duration) *fullStack {
 	cs := cluster.NewState(&cluster.Node{ID: "n0", ProxyAddr: "p0", AdminAddr: "a0"}, log.NewNopLogger())
 	st := &fullStack{cs: cs, mgr: upstream.NewLoadBalancedManager(cs, nil)}
 	sy := sgossip.VerifNewSyncer(cs)
-	st.g = gossip.VerifNewNode("n0", "127.0.0.1:7000", 1400, gossipInterval, &discardConn{}, sy)
+	var w gossip.Watcher = sy
+	if delay > 0 {
+		w = &slowWatcher{next: sy, delay: delay}
+	}
+	st.g = gossip.VerifNewNode("n0", "127.0.0.1:7000", 1400, gossipInterval, &discardConn{}, w)
 	sy.VerifSync(st.g.State)
 	return st
 }
@@ -58,12 +82,12 @@ type c20op struct {
 }
 
 var c20Kinds = []string{"addConn", "removeConn", "select", "selectRemote", "applyDelta", "applyDigestPkt", "digestDelta", "liveness", "compact", "expire", "readNodes", "readLookup", "readMeta", "readGossip", "leaveRemote"}
-var c20Weights = []int{6, 5, 6, 3, 8, 4, 4, 3, 3, 2, 3, 3, 2, 3, 1}
+var c20Weights = []int{6, 5, 6, 3, 8, 5, 4, 3, 3, 4, 3, 3, 2, 3, 3}
 
 func TestC20Program(t *testing.T) {
 	vlib.SetRule("C20", "TestC20Program", "rapid generates a concurrent program: 3-8 goroutines, each a drawn list of operations on ONE real node stack (upstream manager + cluster state + syncer + gossip state + failure detector): upstream connect/disconnect/select, incoming deltas and digest packets about 3 remote nodes (addresses, endpoint counts, deletes, leave markers), digest/delta computation, liveness evaluation, local compaction, expiry sweeps, status reads - with drawn yields; run under the race detector; oracle: no race report, no panic, every goroutine finishes within the watchdog (deadlock), and at quiescence registry == cluster endpoints == gossip endpoint counts == model and the routing table mirrors the gossip view of every remote node; non-trivial = at least two goroutines touch both the registry and the gossip state")
 	vlib.Run(t, "C20", func(c *vlib.Case) {
-		st := newFullStack()
+		st := newFullStackDelay(c.Dur("notifyDelay", 0, 20*time.Microsecond, 200*time.Microsecond))
 		G := c.Int("goroutines", 3, 8)
 		progs := make([][]c20op, G)
 		touchReg, touchGossip := 0, 0
